@@ -112,8 +112,14 @@ def run_phase(rep, args, prefix_filter, mr_real=4):
                 rep.add_drift("end-to-end behaviour: model ends with client %s / %d handler call(s), implementation %s / %d (network decisions %s)"
                               % (cst, calls, got, real_calls, json.dumps(sched["net"])[:200]))
         groups = {}
+        nrun = 0
         for i, s in enumerate(scheds):
+            if any(e["k"] == "runaway" for e in results[i]["events"]):
+                nrun += 1      # not a run this model can judge: the other phases see the endpoint's reactions one by one
+                continue
             groups.setdefault(s["nreq"], []).append(i)
+        if nrun:
+            rep.add_drift("%d of %d two-endpoint runs did not come to rest (the endpoints kept answering each other); not judged here" % (nrun, len(scheds)))
         nval = 0
         for nreq, idxs in groups.items():
             traces = [results[i]["events"] for i in idxs]
